@@ -275,8 +275,16 @@ def main():
     c2 = dict(base, src='v_parallel_1d', dst='v_parallel_2d', canary=CANARIES[1][1], canary_name=CANARIES[1][0])
     cfgs += [c1, c2]
     items = []
+    na = False
     for r in H.pmap(enum_paths, cfgs, run.args.jobs):
         run.add_stats(r.get('stats', {}))
+        if r.get('canary') == '__not_applicable__':
+            na = True          # the canary's edit does not apply to the current source
+            continue
+        if 'cfg' not in r:
+            for i in r.get('inconclusive', []):
+                run.inconc(i)
+            continue
         if not r['cfg'].get('canary_name'):
             for i in r.get('inconclusive', []):
                 run.inconc(i)
@@ -296,6 +304,8 @@ def main():
         walls.append((r.get('wall', 0), r.get('cfg')))
     walls.sort(reverse=True)
     run.sections['slowest_paths'] = walls[:5]
+    if na:
+        caught['__not_applicable__'] = True
     for name, edits in CANARIES:
         hit = caught.get(name, False)
         run.canaries.append(dict(name=name, detected=hit))
